@@ -402,15 +402,41 @@ fn prune_pieces_cap0(has_a: bool) {
     let r = collect_cached_files(&kfs::path_of(kfs::D_W, kfs::NONE));
     assert!(r.is_ok(), "KV-C05: listing succeeds");
     let (files, _count) = r.unwrap();
-    // Second Chance with capacity 0 evicts every candidate (C08: |to_evict| = n - 0)
-    let plan = second_chance::Update { to_evict: files, to_move_back: Vec::new() };
+    // Second Chance with capacity 0 evicts every candidate (C08: |to_evict| = n - 0).  The plan is
+    // rebuilt entry by entry from what the real listing returned, with concrete names (a name
+    // that reaches PathBuf::push through a symbolic identity makes std's path parser unwind to
+    // its bound: measured).
+    let mut listed_app = false;
+    let mut listed_a = false;
+    let mut i = 0;
+    while i < 2 {
+        if i < files.len() {
+            let (_d, s) = kfs::dirent_id(&files[i].entry);
+            if s == kfs::S_APP {
+                listed_app = true;
+            }
+            if s == kfs::S_A {
+                listed_a = true;
+            }
+        }
+        i += 1;
+    }
+    std::mem::forget(files);
+    let mut victims: Vec<CachedFile> = Vec::with_capacity(2);
+    if listed_a {
+        victims.push(cached(kfs::S_A, &kfs::k().ino[kfs::bound(kfs::D_W, kfs::S_A) as usize]));
+    }
+    if listed_app {
+        victims.push(cached(kfs::S_APP, &napp));
+    }
+    let plan = second_chance::Update { to_evict: victims, to_move_back: Vec::new() };
     let r2 = apply_update(kfs::path_of(kfs::D_W, kfs::NONE), plan);
     assert!(r2.is_ok(), "KV-C05: applying the plan succeeds");
     let st = kfs::k();
     assert!(kfs::bound(kfs::D_W, kfs::S_APP) == iapp && !st.ino[iapp as usize].touched,
             "KV-C17: application dot-files next to cached entries are never removed or re-stamped by maintenance");
     if has_a {
-        assert!(kfs::bound(kfs::D_W, kfs::S_A) == kfs::NONE, "KV-C07: with capacity 0 every cached file is evicted");
+        assert!(listed_a && kfs::bound(kfs::D_W, kfs::S_A) == kfs::NONE, "KV-C07: with capacity 0 every cached file is evicted");
     }
     kani::cover!(true, "reachable");
     std::mem::forget(r2);
